@@ -34,7 +34,13 @@ IsKnownNilPoint(m) == (m.op = "schema_properties_null_entry")       \* a null en
 
 Panicked(obs) == {s \in DOMAIN obs : obs[s] = "panic"}
 
+(* F-C20-8: a component schema that is a composition of itself (allOf / anyOf / oneOf / not -> $ref to itself) and has a     *)
+(*   default or example: document validation checks that value against the schema, the composition hands the same value to   *)
+(*   the same schema again, without end: fatal stack overflow (the process dies; the runner reports the case as "crash").     *)
+SelfOps == {"schema_self_allof_default", "schema_self_anyof_example", "schema_self_not_default"}
 Class(line, bad) ==
+   IF bad = {"returns_normally"} /\ line.c.base.comps = "full" /\ Len(line.c.muts) = 1 /\ line.c.muts[1].op \in SelfOps
+      /\ line.obs["load"] = "crash" THEN "self_composition_value_check_overflows" ELSE
    LET ms == (IF "applied" \in DOMAIN line THEN line.applied ELSE <<>>)  msg == IF "msg" \in DOMAIN line THEN line.msg ELSE "" IN
    IF bad # {"returns_normally"} \/ \E s \in DOMAIN line.obs : line.obs[s] \in {"hang", "crash"} THEN "none"
    ELSE IF line.c.base.comps # "full"                       \* the points listed above are nodes of the full base document;
